@@ -1243,8 +1243,14 @@ def op_revisit(ch, W, ctx):
     muts = ['T', 'P', 'scale2']
     if h.kind == 'S': muts.append('phase')
     else: muts += ['swap', 'swap']
+    if h.pkg in ('P', 'Pm') and not shares(W) and not h.detached: muts += ['thermo', 'thermo']
     mut = ch.choice('rv.mut', muts)
     obj = h.real
+    def reset_to(pkg):
+        ctx.call('op._reset_thermo', obj._reset_thermo, _PK[pkg], region=f'kind={h.kind},det=0')
+        h.pkg = pkg; new_dc(h)
+        if hn == 'a': drop_proxies(W, ctx, 'reset_thermo')
+        cache_reset(W, h)
     if mut == 'swap':
         pq = ch.subset('rv.pq', list(h.phases), min_size=2, max_size=2)
     if mut == 'T':
@@ -1258,6 +1264,8 @@ def op_revisit(ch, W, ctx):
         ctx.call('op.phase', setattr, obj, 'phase', new, region='path=h,kind=S'); h.ph.val = new
     elif mut == 'swap':
         swap_rows(W, ctx, h, obj, pq[0], pq[1])
+    elif mut == 'thermo':
+        old = h.pkg; reset_to('Pm' if old == 'P' else 'P')
     else:
         ctx.call('op.scale', obj.scale, 2., region=f'path=h,kind={h.kind}')
         for r in h.flow.rows.values():
@@ -1278,6 +1286,8 @@ def op_revisit(ch, W, ctx):
         ctx.call('op.phase', setattr, obj, 'phase', old, region='path=h,kind=S'); h.ph.val = old
     elif mut == 'swap':
         swap_rows(W, ctx, h, obj, pq[0], pq[1])
+    elif mut == 'thermo':
+        reset_to(old)
     else:
         ctx.call('op.scale', obj.scale, 0.5, region=f'path=h,kind={h.kind}')
         for r in h.flow.rows.values():
@@ -1335,5 +1345,5 @@ def prop_history(ch, ctx):
 
 
 PROPS = {
-    'history': (prop_history, 4800, 100000),
+    'history': (prop_history, 4000, 100000),
 }
